@@ -35,7 +35,7 @@ class Interp(ExprMixin, StmtMixin, CallMixin):
             si.f32_bytes: self.i_f32_bytes, si.f64_bytes: self.i_f64_bytes, si.ghost: self.i_ghost,
             si.fresh_int: self.i_fresh_int, si.f32_of_bytes: self.i_f32_of_bytes, si.f64_of_bytes: self.i_f64_of_bytes, si.prefix_sum: self.i_prefix_sum, si.fresh_bool: self.i_fresh_bool,
             si.region_of: self.i_region_of, si.region_size: self.i_region_size, si.key_of: self.i_key_of, si.reach: self.i_reach,
-            si.reach_transitive: self.i_reach_transitive, si.reach_closed: self.i_reach_closed, si.reach_depth: self.i_reach_depth,
+            si.reach_transitive: self.i_reach_transitive, si.reach_closed: self.i_reach_closed, si.reach_depth: self.i_reach_depth, si.field_seq: self.i_field_seq,
         })
         from . import models_threading
         self.models.update(models_threading.build())
@@ -320,6 +320,13 @@ class Interp(ExprMixin, StmtMixin, CallMixin):
         a, b = z3.Int("ca!"), z3.Int("cb!")
         n = cell.n
         return mk("bool", z3.ForAll([a, b], z3.Implies(z3.And(F(a, b), a >= 0, a < n), z3.And(b >= 0, b < n)), patterns=[F(a, b)]))
+
+    def i_field_seq(self, I, args, kw):
+        cell, _ = self._region_cell(args[0])
+        kind, arr = cell.fields[args[1]]
+        if kind not in ("int", "bool"):
+            raise Unsupported("field_seq of a non-scalar field")
+        return SeqV("tuple", kind, arr=arr, length=cell.n)
 
     def i_reach_depth(self, I, args, kw):
         """Whatever is reached from a region object is not deeper than it (lemma, as above; with the strictly decreasing
